@@ -73,6 +73,16 @@ CHECKS = {
             "index makes searches raise, up to 30 rounds of 40 one-posting keywords force the 1-in-256 silent case.",
             "The disjunction is evaluated per search; any exception type is a loud refusal; 20 s alarm per case (timeout = inconclusive).",
             "DESIGN.md §3 C08"),
+    "C09": ("exploration", "client-boundary oracle over the real client Service + real server handler on a loopback websocket; enumerated client re-creation / server restart placements",
+            "For each of the nine schemes the documented six-step workflow is run with the real client service against "
+            "the real connection handler; all 32 subsets of 'discard the client object and re-create it from disk "
+            "before step k' are combined with a server restart (none / before the first / before the third search); "
+            "the bytes handed to the search callback are deserialized and compared with the JSON database (UTF-8 "
+            "keywords, hex identifiers incl. leading-zero bytes). The frontend.client.commands layer is driven with "
+            "stdout captured in the hex/int/raw/utf8 formats, one workflow returns a > 1 MiB result, and the thorough "
+            "tier repeats the workflow with real server/client processes and SIGKILL.",
+            "Quick tier shares one event loop between client and server (they interact only through the websocket and files); 10 s harness watchdog, expiry = inconclusive.",
+            "DESIGN.md §3 C09"),
     "C10": ("exploration", "trace conformance against a 3-state reference model over exhaustively enumerated message sequences (raw websocket client vs the real handler), with the cleanup delay as a schedulable gate",
             "All sequences over 8 message kinds (config c1/c2, upload e1/e2, search, reconnect, foreign sid, unknown type) "
             "up to length 4 (quick) / 6 (thorough), each on a fresh sid, plus seeded random sequences to length 12, are "
